@@ -54,7 +54,7 @@ def lookups(ck, agg):
                     (9, 5, DEFAULT, -2, "unconnected node -> -2")):
                 n += 1
                 nn.model.opaque[key] = reply_update(None, None)
-                st, node = nn.fresh(fields={"_id": own_id, "_addr": addr})
+                st, node = nn.fresh(fields={net.FN("_id"): own_id, net.FN("_addr"): addr})
                 outs = nn.run(f, node, [Const(arg)] if arg is not None else [], st)
                 for out in outs:
                     agg.add("R17.1", f, "documented trivial answer: %s" % why, out.kind == "return" and value_matches(out.value, want) and not [e for e in out.trace if e.kind == "summary"],
@@ -63,7 +63,7 @@ def lookups(ck, agg):
             n += 1
             reply = Bytes([(("sym", "reply"), Const(2))], "bytes")
             nn.model.opaque[key] = reply_update(ltype, reply)
-            st, node = nn.fresh(fields={"_id": 5, "_addr": 0o15})
+            st, node = nn.fresh(fields={net.FN("_id"): 5, net.FN("_addr"): 0o15})
             outs = nn.run(f, node, [Const(9)], st, limits=Limits(max_paths=20000, loop_unroll=2, depth=14, concrete_loop=10))
             seen = set()
             for out in outs:
@@ -102,7 +102,7 @@ def lookups(ck, agg):
             # no reply at all: -1 after the lookup timeout, never an endless wait
             n += 1
             nn.model.opaque[key] = reply_update(None, None)
-            st, node = nn.fresh(fields={"_id": 5, "_addr": 0o15})
+            st, node = nn.fresh(fields={net.FN("_id"): 5, net.FN("_addr"): 0o15})
             outs = nn.run(f, node, [Const(9)], st, limits=Limits(max_paths=20000, loop_unroll=2, depth=14, concrete_loop=10))
             rets = [o for o in outs if o.kind == "return"]
             agg.add("R17.3", f, "without a reply the lookup ends through its clock test with -1", bool(rets) and all(value_matches(o.value, -1) for o in rets), "returns %r" % [o.value for o in rets])
@@ -122,7 +122,7 @@ def master_side(ck, agg, req_fmt):
     for ltype, msg in ((ALOOK, Bytes([(("const", b"\x09"), Const(1))], "bytes")), (ILOOK, Bytes([(("const", b"\x0d\x00"), Const(2))], "bytes"))):
         n += 1
         nn.model.opaque[key] = reply_update(ltype, msg)
-        st, node = nn.fresh(fields={"_id": 0, "_addr": 0, "_do_dhcp": False}, frame_pins={"from_node": 0o15})
+        st, node = nn.fresh(fields={net.FN("_id"): 0, net.FN("_addr"): 0, "_do_dhcp": False}, frame_pins={"from_node": 0o15})
         outs = nn.run(fu, node, [], st, limits=Limits(max_paths=20000, loop_unroll=2, depth=14, concrete_loop=10))
         kinds = set()
         for out in outs:
@@ -173,7 +173,7 @@ def misc(ck, agg):
         f = P.method(cls, "release_address")
         for addr in (0o15, DEFAULT):
             n += 1
-            st, node = nn.fresh(fields={"_id": 5, "_addr": addr})
+            st, node = nn.fresh(fields={net.FN("_id"): 5, net.FN("_addr"): addr})
             outs = nn.run(f, node, [], st)
             for out in outs:
                 wr = [e for e in out.trace if e.kind == "summary" and e.data[0] == "_write"]
@@ -195,7 +195,7 @@ def misc(ck, agg):
         f = P.method(cls, "check_connection")
         for own_id, addr, want in ((0, 0, True), (5, DEFAULT, False)):
             n += 1
-            st, node = nn.fresh(fields={"_id": own_id, "_addr": addr})
+            st, node = nn.fresh(fields={net.FN("_id"): own_id, net.FN("_addr"): addr})
             outs = nn.run(f, node, [], st)
             for out in outs:
                 agg.add("R17.4", f, "check_connection(): True on the master, False on an unconnected node, without traffic", out.kind == "return" and value_matches(out.value, want) and not [e for e in out.trace if e.kind == "summary"],
@@ -203,7 +203,7 @@ def misc(ck, agg):
         # renew_address(): ends through its clock test with None
         f = P.method(cls, "renew_address")
         n += 1
-        st, node = nn.fresh(fields={"_id": 5, "_addr": DEFAULT})
+        st, node = nn.fresh(fields={net.FN("_id"): 5, net.FN("_addr"): DEFAULT})
         outs = nn.run(f, node, [Const(1)], st, limits=Limits(max_paths=60000, loop_unroll=2, depth=14, concrete_loop=10))
         rets = [o for o in outs if o.kind == "return"]
         agg.add("R17.3", f, "with nobody answering renew_address() ends through its clock test and returns None", bool(rets) and all(isinstance(norm(o.value), Const) and norm(o.value).v is None for o in rets),
@@ -212,7 +212,7 @@ def misc(ck, agg):
         # send(): lookup failures end through the clock test with False
         f = P.method(cls, "send")
         n += 1
-        st, node = nn.fresh(fields={"_id": 5, "_addr": 0o15})
+        st, node = nn.fresh(fields={net.FN("_id"): 5, net.FN("_addr"): 0o15})
         msg = Bytes([(("param", "message"), Const(3))], "bytes")
         outs = nn.run(f, node, [Const(9), Const(7), msg], st, limits=Limits(max_paths=60000, loop_unroll=2, depth=14, concrete_loop=10))
         rets = [o for o in outs if o.kind == "return"]
@@ -255,12 +255,12 @@ def request_frames(ck, agg):
         nn.model.opaque[P.method(cls, nm).qualname] = lambda model, it, st, fr, node, target, args, kwargs: [(st, Sym(st.fresh_name("lookup"), "int"))]
     def begin(model, it, st, fr, node, target, args, kwargs):
         # _begin(addr) re-addresses the node (R04.1); it never touches the node ID or the frame buffer
-        st.heap[args[0].ident].fields["_addr"] = args[1]
+        st.heap[args[0].ident].fields[net.FN("_addr")] = args[1]
         it.event(st, fr, "begin-call", node, tuple(args[1:]))
         return [(st, Const(None))]
     nn.model.opaque[P.method(mix, "_begin").qualname] = begin
     nn.model.loop_key = net.radio_loop_key(nn, trace_kinds=("summary", "rx-havoc"))
-    st, node = nn.fresh(fields={"_id": 77, "_addr": DEFAULT})
+    st, node = nn.fresh(fields={net.FN("_id"): 77, net.FN("_addr"): DEFAULT})
     outs = nn.run(f, node, [Const(1)], st, limits=Limits(max_paths=40000, loop_unroll=2, depth=14, concrete_loop=10))
     n = 0
     seen_second = False
